@@ -2,6 +2,7 @@ package lib
 
 import (
 	"bufio"
+	"context"
 	"errors"
 	"fmt"
 	"io"
@@ -202,6 +203,9 @@ type Op struct {
 	Method        string
 	EarlyHints    bool        // WriteHeader(103) before the Content-Type of the final response is set
 	ReqHeader     http.Header // request headers (what the client sent must not change what the handler's response becomes)
+	RespHeader    http.Header // further response headers the handler sets before it writes (Content-Encoding: identity, Vary, ETag)
+	CtxCancelled  bool        // the request's context is already cancelled (a timeout middleware in front)
+	Nested        bool        // EMiddleware / EMiddleErr: the middleware is applied twice (router and route)
 
 	// observations
 	Out        []byte
@@ -372,7 +376,7 @@ func (op *Op) Exec(y *sim.Point, m *minify.M) {
 		op.Out = op.OutAtClose
 	case ERespWriter:
 		op.RW = sim.NewSimResponseWriter(op.W)
-		req := &http.Request{RequestURI: op.RequestURI, Method: op.Method, Header: op.ReqHeader}
+		req := op.request()
 		rw := m.ResponseWriter(op.RW, req)
 		op.handle(y, rw)
 		y.Yield("close", 0)
@@ -385,15 +389,22 @@ func (op *Op) Exec(y *sim.Point, m *minify.M) {
 		op.Out = op.OutAtClose
 	case EMiddleware, EMiddleErr:
 		op.RW = sim.NewSimResponseWriter(op.W)
-		req := &http.Request{RequestURI: op.RequestURI, Method: op.Method, Header: op.ReqHeader}
+		req := op.request()
 		next := http.HandlerFunc(func(w http.ResponseWriter, r *http.Request) { op.handle(y, w) })
 		var h http.Handler
+		errf := func(w http.ResponseWriter, r *http.Request, err error) {
+			op.MidErr, op.MidErrSet = err, true
+		}
 		if op.Entry == EMiddleware {
 			h = m.Middleware(next)
+			if op.Nested {
+				h = m.Middleware(h)
+			}
 		} else {
-			h = m.MiddlewareWithError(next, func(w http.ResponseWriter, r *http.Request, err error) {
-				op.MidErr, op.MidErrSet = err, true
-			})
+			h = m.MiddlewareWithError(next, errf)
+			if op.Nested {
+				h = m.Middleware(h) // outer on the router, inner (with the error function) on the route
+			}
 		}
 		h.ServeHTTP(op.RW, req)
 		op.W.Seal()
@@ -401,6 +412,16 @@ func (op *Op) Exec(y *sim.Point, m *minify.M) {
 		op.OutAtClose, op.AtCloseN, _ = op.W.Snapshot()
 		op.Out = op.OutAtClose
 	}
+}
+
+func (op *Op) request() *http.Request {
+	req := &http.Request{RequestURI: op.RequestURI, Method: op.Method, Header: op.ReqHeader}
+	if op.CtxCancelled {
+		ctx, cancel := context.WithCancel(context.Background())
+		cancel()
+		req = req.WithContext(ctx)
+	}
+	return req
 }
 
 // handle plays the HTTP handler: headers, optional explicit status, body in chunks.
@@ -411,6 +432,9 @@ func (op *Op) handle(y *sim.Point, w http.ResponseWriter) {
 	}
 	if op.ContentType != "" {
 		w.Header().Set("Content-Type", op.ContentType)
+	}
+	for k, v := range op.RespHeader {
+		w.Header()[k] = v
 	}
 	if op.ContentLength != "" {
 		w.Header().Set("Content-Length", op.ContentLength)
